@@ -868,79 +868,157 @@ def reprClause (kind op : String) (o : Obj) (r : Res) : String :=
         let n := s!"raises:{kind}.{op}"
         if n == "held-value-repr-raises" then "raises" else n    -- (never: `n` begins with "raises:"; keeps the recorded name exact)
 
-/-! ## 4. chains whose exceptions REJECT attribute assignment (audit 3, A2)
+/-! ## 4. chains whose exceptions REJECT attribute assignment (audit 3, A2; repaired in /repo b55deef)
 
-`@dataclass(frozen=True) class E(Exception)`, a class whose `__setattr__` raises, ...: async_task.py:279-281
-`_accept_error` executes `error._task = self` (then qcore `prepare_for_reraise`: `error._traceback = ..`,
-`error._type_ = ..`) inside `_continue`'s `except BaseException as error:` clause.  For such an exception the assignment
-itself raises (FrozenInstanceError); nothing catches it: it leaves `_continue`, `_continue_with_task`, `_execute`,
-`wait_for` and arrives at the synchronous caller of the OUTERMOST task.  The failing task is never computed, its awaiter
-is never continued (its `try/except` never sees the exception), `TaskScheduler._tasks` / `active_task` keep the
-abandoned tasks.  Modelled for chains in which every level awaits by `yield` and the bottom is nothing or an
-`ErrorFuture` (`rejectDomain`); every exception of the chain (own, `raise New()`, the ErrorFuture's) is of that class. -/
+`@dataclass(frozen=True) class E(Exception)`, a class whose `__setattr__` raises, ...: `error._task = self` (and qcore
+`prepare_for_reraise`: `error._traceback = ..`, `error._type_ = ..`) raises for such an object.  Before b55deef the
+assignment stood unguarded in `_accept_error` inside `_continue`'s `except BaseException` clause: its error left the
+scheduler and reached the caller of the outermost task INSTEAD of the exception (token `rejectTok`), no awaiter was
+continued, the scheduler kept the abandoned tasks.  The repaired code (async_task.py `_prepare_for_reraise(error, task)`:
+`try: error._task = task; prepare_for_reraise(error) / except Exception: pass`; `try: error._traceback = ..`) goes on
+WITHOUT the attributes: the error is stored on the task and delivered to every awaiter as always, but
+`hasattr(error, "_task")` stays false, so every `_continue_on_generator` throws it with `throw(type(error), error)`
+(CPython resets `__traceback__`), `reraise` finds no `_type_` and raises the object with the `__traceback__` it has, and
+`format_error` finds no `_traceback`.  Everything else (`arrive`, `reraise`, `valueRaises`, the frame rule) is the code of
+section 2 unchanged - only `acceptError` is the identity. -/
 
 inductive ExcClass where
   | accepts    -- attribute assignment works (every ordinary exception class): the model `run` above
   | rejects    -- attribute assignment raises
   deriving Repr, DecidableEq, Inhabited
 
-/-- token of the exception raised by the rejected assignment (what the harness reports for FrozenInstanceError) -/
+/-- token of the exception raised by the rejected assignment (what the harness reports for FrozenInstanceError at the
+    caller): the behaviour BEFORE the repair -/
 def rejectTok : Nat := 997
 
-inductive ROut where
-  | returned     -- the task of this level computed a value
-  | delivered    -- (below the innermost level only) the ErrorFuture's error, thrown into the awaiting generator by
-                 -- `_continue_on_generator` (`throw(type(error), error)`: no attribute is written on that path)
-  | escaped      -- an exception left a generator: `_accept_error`'s assignment raised out of the scheduler
-  deriving Repr, DecidableEq, Inhabited
+/-- `escape` for an object that cannot carry the attributes: `_accept_error` stores the error on the task, the guarded
+    writes change nothing (`__traceback__` is what CPython made it while the exception unwound) -/
+def escapeR (rule : FrameRule) (slot : Option Frame) (e : Err) : Err × Frame :=
+  let line := match slot with
+    | some f => f
+    | none => match rule with
+      | .deepest => deepest (.lib .cog) e.cur
+      | .own => ownDeepest (.lib .cog) e.cur
+  ({ e with cur := .lib .cont :: .lib .cog :: e.cur }, line)
 
-def rejectDomain (bottom : Bottom) (levels : List Level) : Bool :=
-  levels.all (fun L => L.await == .yld) && (bottom == .none || bottom == .errFuture) && !levels.isEmpty
+def finishR (rule : FrameRule) (lv : Nat) (L : Level) (slot : Option Frame) : Option Err × Frame :=
+  match L.own with
+  | some h => let (e, line) := escapeR rule slot (unwind (raisedIn lv h) (fresh (ownTok lv))); (some e, line)
+  | none => (none, slot.getD (.task lv))
 
-/-- levels `lv, lv+1, ..` of a chain of rejecting exceptions: outcome and the `format_asynq_stack()` answers given so
-    far (every creator is suspended in its await: the answer of level `lv` is `0 .. lv`) -/
-def rejectRun (bottom : Bottom) : Nat → List Level → ROut × List Event
-  | _, [] => (if bottom == .errFuture then .delivered else .returned, [])
-  | lv, L :: rest =>
-    let (c, evs) := rejectRun bottom (lv + 1) rest
-    let evStart := Event.stack .start lv (List.range (lv + 1))
-    let evHandler := Event.stack .handler lv (List.range (lv + 1))
-    -- after the await: `raise E()` leaves the generator → `_accept_error` → the assignment raises
-    let fin : ROut := if L.own.isSome then .escaped else .returned
-    match c with
-    | .escaped => (.escaped, evStart :: evs)            -- this level is never continued
-    | .returned => (fin, evStart :: evs)
-    | .delivered =>
-      match L.handler with
-      | .pass => (.escaped, evStart :: evs)
-      | .swallow => (fin, evStart :: evs ++ [evHandler])
-      | _ => (.escaped, evStart :: evs ++ [evHandler])   -- `raise` / `raise e` / `raise New()` leave the generator
+/-- `step` with `escapeR` / `finishR` -/
+def stepR (rule : FrameRule) (lv : Nat) (anc : List Frame) (L : Level) (last : Bool) (child : Run) : Run :=
+  let here := anc ++ [.task lv]
+  let evStart := Event.stack .start lv (here.map levelTok)
+  let evHandler := Event.stack .handler lv (here.map levelTok)
+  match child.out with
+  | none =>
+    let (o, line) := finishR rule lv L none
+    { out := o, events := evStart :: child.events, lines := line :: child.lines }
+  | some e =>
+    let (e3, slot) := arrive L.await lv (!last) e
+    match L.handler with
+    | .pass =>
+      let (e', line) := escapeR rule slot e3
+      { out := some e', events := evStart :: child.events, lines := line :: child.lines }
+    | .bare | .named =>
+      let (e', line) := escapeR rule slot e3
+      { out := some e', events := evStart :: child.events ++ [evHandler], lines := line :: child.lines }
+    | .raiseNew h =>
+      let (e', line) := escapeR rule slot (unwind (raisedIn lv h) (fresh (newTok lv)))
+      { out := some e', events := evStart :: child.events ++ [evHandler], lines := line :: child.lines }
+    | .swallow =>
+      let (o, line) := finishR rule lv L slot
+      { out := o, events := evStart :: child.events ++ [evHandler], lines := line :: child.lines }
 
-/-- what the caller catches when the assignment raised: FrozenInstanceError with the caller's frame and library frames
-    only; it has no `_traceback` (format_error prints no frame) -/
-def rejectResult : ROut → Event
-  | .escaped => .result (some (rejectTok, [.caller], [.caller], []))
-  | _ => .result none
+/-- `hookFails` without the attributes: `_prepare_for_reraise(error)` and `_accept_error` write nothing; the object keeps
+    the `__traceback__` of its way out of the hook -/
+def hookFailsR (lv h : Nat) : Err := unwind (.lib .ctxs :: hookFrames lv h) (fresh hookTok)
 
-/-- the whole observation; the orphans are run by the caller afterwards (on the dirty scheduler) and answer as always -/
-def rejectTop (bottom : Bottom) (levels : List Level) : List Event :=
-  let r := rejectRun bottom 0 levels
-  r.2 ++ [rejectResult r.1] ++ refOrphans 0 levels
+def runR (rule : FrameRule) (bottom : Bottom) : Nat → List Frame → List Level → Run
+  | _, _, [] => { out := if bottom == .errFuture then some (fresh bottomTok) else none, events := [], lines := [] }
+  | lv, anc, L :: rest =>
+    match rest, bottom with
+    | [], .hook _ h =>
+      { out := some (hookFailsR lv h), events := [Event.stack .start lv ((anc ++ [Frame.task lv]).map levelTok)], lines := [Frame.task lv] }
+    | _, _ => stepR rule lv anc L rest.isEmpty (runR rule bottom (lv + 1) (anc ++ [.task lv]) rest)
+
+/-- the chains generated for rejecting exception classes -/
+def rejectDomain (_bottom : Bottom) (levels : List Level) : Bool := !levels.isEmpty
+
+/-- the whole observation of a chain of rejecting exceptions on the repaired code -/
+def rejectTop (rule : FrameRule) (bottom : Bottom) (levels : List Level) : List Event :=
+  let r := runR rule bottom 0 [] levels
+  r.events ++ [resultEvent r.out] ++ orphanEvents r.lines 0 levels
 
 /-- the model of the code as it is, by exception class -/
 def runTopC (cls : ExcClass) (rule : FrameRule) (bottom : Bottom) (levels : List Level) : List Event :=
   match cls with
   | .accepts => runTop rule bottom levels
-  | .rejects => rejectTop bottom levels
+  | .rejects => rejectTop rule bottom levels
 
-/-- `Spec.C18` (glue part) for a chain of rejecting exceptions: the SAME reference as for every other class (the
-    property text has no exception for them).  The name of the recorded open finding is given only to the very
-    observation the model of the code predicts for this chain; every other wrong observation keeps `glueClause`'s name -/
-def rejectClause (bottom : Bottom) (levels : List Level) (events : List Event) : String :=
-  if events == refTop bottom levels then "ok"
-  else if events == rejectTop bottom levels then "exception-rejecting-attributes-not-delivered"
+/-- `a` is `b` with some elements left out -/
+def isSubseq : List Frame → List Frame → Bool
+  | [], _ => true
+  | _ :: _, [] => false
+  | x :: xs, y :: ys => if x == y then isSubseq xs ys else isSubseq (x :: xs) ys
+
+/-- one event of a chain of rejecting exceptions against the reference event in the same slot: the SAME reference as
+    for every class, at full strength (the property text has no exception for classes that refuse attributes).
+    `model` = the observation the model of the code predicts for this chain.  One deviation has the name of the recorded
+    open finding `exception-rejecting-attributes-traceback-incomplete`: the right exception arrived, the traceback begins
+    with the caller and the awaiter and shows reference frames only, in reference order, `extract_tb` agrees,
+    `format_error` names reference frames only - but frames are MISSING - and it is exactly the result the model of the
+    code predicts.  A foreign frame, a wrong order, a wrong start, another exception, no exception, or missing frames
+    the model does not predict keep their own names. -/
+def rejectEventClause (bottom : Bottom) (levels : List Level) (model : List Event) : Event → String
+  | .result r =>
+    match r, ref bottom 0 levels with
+    | none, none => "ok"
+    | some (tok, raw, vis, fmt), some (tok', fs) =>
+      if tok != tok' then "wrong-exception"
+      else if raw == .caller :: fs && vis == raw && fmt == fs then "ok"
+      else match raw with
+        | .caller :: rest =>
+          if rest.head? != fs.head? then "glued-traceback-does-not-start-at-awaiter"
+          else if !isSubseq rest fs then "glued-traceback-foreign-frames"
+          else if vis != raw then "extract-tb"
+          else if !isSubseq fmt fs then "format-error-frames"
+          else if model.contains (.result r) then "exception-rejecting-attributes-traceback-incomplete"
+          else "glued-traceback"
+        | _ => "glued-traceback-no-caller"
+    | none, some _ => "exception-lost"
+    | some _, none => "unexpected-exception"
+  | e => glueEventClause bottom levels e
+
+def rejectWhy (bottom : Bottom) (levels : List Level) (model : List Event) : List Event → List Event → String
+  | [], [] => "ok"
+  | [], _ :: _ => "unexpected-event"
+  | e :: _, [] => if e.isResult then "no-result" else "stack-event-missing"
+  | e :: es, g :: gs =>
+    if sameSlot e g then
+      let c := rejectEventClause bottom levels model g
+      -- the incomplete traceback is the LAST thing looked at: the events after the result (orphans) are judged first
+      if c == "ok" then rejectWhy bottom levels model es gs
+      else if c == "exception-rejecting-attributes-traceback-incomplete" then
+        let rest := rejectWhy bottom levels model es gs
+        if rest == "ok" then c else rest
+      else c
+    else if e.isResult then "unexpected-event"
+    else if g.isResult then "stack-event-missing"
+    else "stack-event-wrong-slot"
+
+def Event.isRejected : Event → Bool
+  | .result (some (tok, _, _, _)) => tok == rejectTok
+  | _ => false
+
+/-- `Spec.C18` (glue part) for a chain of rejecting exceptions: the reference observation at full strength; "ok" iff
+    nothing deviates.  The behaviour before the repair (the caller catches
+    the error of the rejected assignment) keeps its name; it is no recorded finding any more: a regression is a violation -/
+def rejectClause (rule : FrameRule) (bottom : Bottom) (levels : List Level) (events : List Event) : String :=
+  if events.any Event.isRejected then "exception-rejecting-attributes-not-delivered"
   else
-    let c := glueClause bottom levels events      -- never "ok" here (`C18_glue_observer_exact`)
+    let c := rejectWhy bottom levels (rejectTop rule bottom levels) (refTop bottom levels) events
     if c == "exception-rejecting-attributes-not-delivered" then "not-the-reference-events" else c
 
 end AsynqModel.Debug
